@@ -41,7 +41,7 @@ from runner import Infra, TieBroken
 
 ID = "C13"
 LEAN_MODULES = ["PyYetiVerif.Props.C13", "PyYetiVerif.Props.C13Text", "PyYetiVerif.Props.C13Dmig", "PyYetiVerif.Props.C13Grid",
-                "PyYetiVerif.Props.C13Cord", "PyYetiVerif.Props.C13DmigX", "PyYetiVerif.Props.C13Fmt", "PyYetiVerif.Props.C13Multi", "PyYetiVerif.Props.C13Values", "PyYetiVerif.Audit.C13"]
+                "PyYetiVerif.Props.C13Cord", "PyYetiVerif.Props.C13DmigX", "PyYetiVerif.Props.C13Fmt", "PyYetiVerif.Props.C13Multi", "PyYetiVerif.Props.C13Values", "PyYetiVerif.Props.C13Uset", "PyYetiVerif.Audit.C13"]
 AUDIT_FILE = "PyYetiVerif/Audit/C13.lean"
 THEOREMS = [
     "PyYetiVerif.C13." + n
@@ -61,7 +61,8 @@ THEOREMS = [
         "set_tokens_are_templates tabled1_is_template "
         "readers_independent typed_readers_independent sets_in_file wtset_is_segment "
         "real_field_reads real_field_accuracy real_field_clean tabled1_roundtrip_values grid_roundtrip_values "
-        "cord2_roundtrip_values dmig_roundtrip_values dmig_lines_int_instance"
+        "cord2_roundtrip_values dmig_roundtrip_values dmig_lines_int_instance "
+        "uset_bulk_roundtrip_labels uset_bulk_roundtrip_labels_full"
     ).split()
 ]
 TRUSTED = [
@@ -1588,6 +1589,82 @@ def _real_streams(ctx, B, texts):
             texts.append(("dmig", impl))
 
 
+# ---------------------------------------------------------------------------------------
+# uset2bulk / bulk2uset at the table level (Model/BulkUset.lean)
+
+
+def _gen_uset_table(rng):
+    """a USET table with grids in any order, output systems different from the input systems, and scalar points
+    (one row, DOF 0) before / between / after the grids -> (uset, entries) with entries = ('g', id, cd, cdtype, xyz) | ('s', id)"""
+    import pandas as pd
+    from pyyeti.nastran import n2p
+
+    case = {"seed": rng.randint(0, 2 ** 31), "ncs": rng.randint(0, 3), "ngrids": rng.randint(1, 5), "mixed": False}
+    uset = _gen_uset(case)[0]
+    blocks = [uset.iloc[6 * k:6 * k + 6] for k in range(len(uset) // 6)]
+    if rng.random() < 0.5:
+        rng.shuffle(blocks)
+    used = set(int(i) for i in uset.index.get_level_values("id"))
+    for _ in range(rng.choice([0, 0, 1, 2, 3])):
+        sid = rng.choice([i for i in range(1, 9000) if i not in used])
+        used.add(sid)
+        blocks.insert(rng.randint(0, len(blocks)), n2p.make_uset([[sid, 0]], rng.choice(["b", "q", "o"])))
+    tab = pd.concat(blocks, axis=0)
+    ents = []
+    for b in blocks:
+        gid = int(b.index[0][0])
+        if int(b.index[0][1]) == 0:
+            ents.append(("s", gid))
+        else:
+            ents.append(("g", gid, int(b.iloc[1, 1]), int(b.iloc[1, 2]), [float(v) for v in b.iloc[0, 1:4]]))
+    return tab, ents
+
+
+def _uset_table_streams(ctx, B):
+    bulk = _bulk()
+    from pyyeti.nastran import n2p
+
+    rng = ctx.rng
+    for _ in range(ctx.pick(60, 600)):
+        try:
+            tab, ents = _gen_uset_table(rng)
+            ci = n2p.mkcordcardinfo(tab)
+        except Exception as e:
+            ctx.skip("uset-table generator:" + type(e).__name__)
+            continue
+        impl = _write(bulk.uset2bulk, tab)
+        parts = []
+        for e in ents:
+            if e[0] == "s":
+                parts.append("s %d" % e[1])
+            else:
+                parts.append("g %d %d %d %s" % (e[1], e[2], e[3], " ".join(_hex("{:16.8f}".format(v)) for v in e[4])))
+        req = "usettab %d %s %d %s" % (len(ci), " ".join(_cord_tokens(v[0], cid, v[1]) for cid, v in ci.items()), len(ents), " ".join(parts))
+        gids = [e[1] for e in ents if e[0] == "g"]
+        br = ["usettab:" + ("with-spoints" if any(e[0] == "s" for e in ents) else "grids-only"),
+              "usettab:" + ("sorted" if gids == sorted(gids) else "unsorted")]
+        if any(e[0] == "g" and e[2] != 0 for e in ents):
+            br.append("usettab:cd-not-cp")
+        B.add("uset-table-write", req, {"entries": ents}, impl, _text_conv(), branch=br)
+        if impl.startswith("error"):
+            continue
+        try:
+            u2, c2 = bulk.bulk2uset(io.StringIO(impl))
+            dof = u2.index.get_level_values("dof").values
+            got = {"grids": [(int(i), int(x), int(y)) for (i, _d), x, y in zip(u2.index[dof == 2].tolist(), u2.loc[dof == 2, "x"], u2.loc[dof == 2, "y"])],
+                   "index": [(int(a), int(b)) for a, b in u2.index.tolist()], "nasset": sorted(set(int(v) for v in u2["nasset"].values))}
+        except Exception as e:  # noqa: BLE001
+            got = "error:" + type(e).__name__
+
+        def conv(rep):
+            if rep == "error":
+                return rep
+            gs = [tuple(int(v) for v in w.split(".")) for w in rep.split()]
+            return {"grids": gs, "index": [(g[0], k) for g in gs for k in range(1, 7)], "nasset": [2097154]}
+
+        B.add("uset-table-read", "b2u " + _hex(impl), {"text": impl}, got, conv, branch="b2u")
+
+
 REQUIRED = [
     "findseq:ok", "findseq:error", "nasints:short", "nasints:exact-fill", "nasints:remainder",
     "csuper:one-line", "csuper:exact-fill", "csuper:remainder", "extrn:exact-fill", "extrn:remainder",
@@ -1601,6 +1678,7 @@ REQUIRED = [
     "grids:ValueError", "grids:defaults", "cord:written", "uset:with-coords", "uset:no-coords",
     "rdgrids:ok", "rdgrids:none", "rdgrids:index-error", "rdgrids:ragged", "rdcardsk", "rdcord2:ok", "rdcord2:error",
     "rdcord2:empty", "rdcord2:13-fields", "rdcord2cards",
+    "usettab:with-spoints", "usettab:grids-only", "usettab:sorted", "usettab:unsorted", "usettab:cd-not-cp", "b2u",
     "real:E", "real:e", "real:f", "real:three-digit-exponent", "real:zero", "real:wider-than-field",
     "dmigr:form1", "dmigr:form2", "dmigr:form6", "dmigr:form9", "dmigr:type1", "dmigr:type2", "dmigr:type3", "dmigr:type4",
     "multi:fileok", "multi:dmig", "multi:grid", "multi:cord2", "multi:spoint", "multi:csuper", "multi:extrn", "multi:tabled1",
@@ -1618,6 +1696,7 @@ def correspondence(ctx):
     _reader_streams(ctx, B, texts)
     _grid_reader_streams(ctx, B, texts)
     _multi_streams(ctx, B)
+    _uset_table_streams(ctx, B)
     B.run(ctx)
     for it in B.items[:: max(1, len(B.items) // 6)]:
         ctx.sample({"stream": it[0], "input": it[2]})
